@@ -55,7 +55,7 @@ func c09record(p *Prog, r *Report) {
 				return false
 			}
 			fv, base := fieldOf(lk.X)
-			if fv == nil || fv.Name() != "ByPubKey" {
+			if fv == nil || refName(fv) != "ByPubKey" {
 				return false
 			}
 			return depOnCallIdx(base, storeM("GetPeerSet"), 0) && (depOnCall(lk.Index, named(HG+".BlockSignature.ValidatorHex")) || depOnField(lk.Index, "Validator"))
@@ -362,7 +362,7 @@ func c09sign(p *Prog, r *Report) {
 			return false
 		}
 		fv, base := fieldOf(lk.X)
-		if fv == nil || (fv.Name() != "ByID" && fv.Name() != "ByPubKey") {
+		if fv == nil || (refName(fv) != "ByID" && refName(fv) != "ByPubKey") {
 			return false
 		}
 		return dependsOn(base, func(x ssa.Value) bool {
@@ -391,7 +391,7 @@ func c09sign(p *Prog, r *Report) {
 					}
 				}
 			}
-			r.Check(dom, rule, "commit:signBlock:after-store-"+fv.Name(), p.ipos(c), fnName(commit), fv.Name()+" from the application's response is in the block before it is signed", "block signed before "+fv.Name()+" of the commit response was stored into it")
+			r.Check(dom, rule, "commit:signBlock:after-store-"+refName(fv), p.ipos(c), fnName(commit), refName(fv)+" from the application's response is in the block before it is signed", "block signed before "+refName(fv)+" of the commit response was stored into it")
 		}
 		r.Check(depOnValue(argN(c, 0), block), rule, "commit:signBlock:same-block", p.ipos(c), fnName(commit), "the committed block is the one signed", "signBlock applied to a different block")
 	}
@@ -476,7 +476,7 @@ func c09reset(p *Prog, r *Report) {
 							return false
 						}
 						fv, _ := fieldOf(lk.X)
-						return fv != nil && fv.Name() == "ByPubKey" && depOnCall(lk.Index, fullKeyIdent)
+						return fv != nil && refName(fv) == "ByPubKey" && depOnCall(lk.Index, fullKeyIdent)
 					}, 1)
 					qVerify := p.lift(func(l Lit) bool { return resultLit(l, named(HG+".Block.Verify"), 0, true, nil) }, 1)
 					g1, _ := p.allPaths(mu, []Pred{qMember}, all(1))
